@@ -38,6 +38,8 @@ fn statements() -> Vec<String> {
             // a never-bound name reads as None even if a function of that name is registered
             "x = mul", "sum += 1", "y = max",
             // numerically equal, differently written: the binding holds what was written last
+            // names that differ from x / y only by a leading character Unicode calls whitespace
+            "\u{a0}x = 9", "x = \u{a0}x",
             "x = 7", "x = 2.5", "x += 0.00", "x *= 1.0", "x = 0", "x = - 0", "x = [1.0, 'b']",
         ]
         .iter()
@@ -133,9 +135,16 @@ fn stmt_key(stmt: &str) -> String {
     let ops = ["<<=", ">>=", "+=", "-=", "*=", "/=", "%=", "&=", "^=", "|=", "="];
     for o in ops {
         if let Some(i) = stmt.find(&format!(" {} ", o)) {
-            let lhs = stmt[..i].trim();
-            let rhs = stmt[i + o.len() + 2..].trim();
-            let lk = if lhs.chars().all(|c| c.is_ascii_alphanumeric()) && !lhs.chars().next().unwrap().is_ascii_digit() { "name" } else { "non-name" };
+            // (only the language's own blank is trimmed: a name may be a character Unicode calls whitespace)
+            let lhs = stmt[..i].trim_matches(' ');
+            let rhs = stmt[i + o.len() + 2..].trim_matches(' ');
+            let lk = if lhs.chars().all(|c| c.is_ascii_alphanumeric()) && lhs.chars().next().map(|c| !c.is_ascii_digit()).unwrap_or(false) {
+                "name"
+            } else if lhs.chars().any(|c| c.is_whitespace()) {
+                "odd-name"
+            } else {
+                "non-name"
+            };
             let rk = if rhs.contains('=') { "nested-assignment" } else if rhs.contains('(') { "call" } else { "simple" };
             return format!("{}:{}:{}", o, lk, rk);
         }
